@@ -1,7 +1,7 @@
 #!/bin/bash
 # seedtest.sh <patch> <prop> [tier]  : apply a seeded change to /repo, run ./check <prop>, undo it straight afterwards.
 # prints DETECTED / MISSED / BROKEN
-P=$1; PROP=$2; TIER=${3:-quick}
+P=$1; PROP=$2; TIER=${3:-quick}; case "$P" in /*) ;; *) P=/verif/seeded/$P/patch.diff;; esac
 cd /verif
 git -C /repo diff --quiet || { echo "repo dirty"; exit 2; }
 git -C /repo apply "$P" || { echo "patch does not apply"; exit 2; }
